@@ -298,10 +298,15 @@ const ODD_VALUES: [&str; 11] = [
   "a\u{e9}\u{4e2d}\u{1F600}\u{e9}\u{4e2d}\u{1F600}\u{e9}\u{4e2d}\u{1F600}\u{e9}\u{4e2d}\u{1F600}\u{e9}\u{4e2d}\u{1F600}\u{e9}\u{4e2d}\u{1F600}\u{e9}\u{4e2d}\u{1F600}\u{e9}\u{4e2d}\u{1F600}\u{e9}\u{4e2d}\u{1F600}\u{e9}\u{4e2d}\u{1F600}\u{e9}\u{4e2d}\u{1F600}\u{e9}\u{4e2d}\u{1F600}\u{e9}\u{4e2d}\u{1F600}\u{e9}\u{4e2d}\u{1F600}\u{e9}\u{4e2d}\u{1F600}\u{e9}\u{4e2d}\u{1F600}\u{e9}\u{4e2d}\u{1F600}\u{e9}\u{4e2d}\u{1F600}\u{e9}\u{4e2d}\u{1F600}\u{e9}\u{4e2d}\u{1F600}\u{e9}\u{4e2d}\u{1F600}\u{e9}\u{4e2d}\u{1F600}\u{e9}\u{4e2d}\u{1F600}\u{e9}\u{4e2d}\u{1F600}\u{e9}\u{4e2d}\u{1F600}\u{e9}\u{4e2d}\u{1F600}\u{e9}\u{4e2d}\u{1F600}\u{e9}\u{4e2d}\u{1F600}\u{e9}\u{4e2d}\u{1F600}\u{e9}\u{4e2d}\u{1F600}\u{e9}\u{4e2d}\u{1F600}\u{e9}\u{4e2d}\u{1F600}\u{e9}\u{4e2d}\u{1F600}\u{e9}\u{4e2d}\u{1F600}",
   "=!!p://h/p#i", "http://[::1", "#", " ", "\u{e9}\u{4e2d}", "0", "true", "a b:c", "xxxxxxxxxxxxxxxxxxxxxxxxxxxxxxxxxxxxxxxxxxxxxxxxxxxxxxxxxxxxxxxxxxxxxxxxxxxxxxxxxxxxxxxxxxxxxxxxxxxxxxxxxxxxxxxxxxxxxxxxxxxxxxxxxxxxxxxxxxxxxxxxxxxxxxxxxxxxxxxxxxxxxxxxxxxxxxxxxxxxxxxxxxxxxxxxxxxxxxxxxxxxxxxxxxxxxxxxxxxxxxxxxxxxxxxxxxxxxxxxxxxxxxxxxxxxxxxxxxxxxxxxxxxx"];
 const ODD_DIAGRAM_VALUES: [&str; 5] = ["\u{e9}\u{4e2d}\u{1F600}\u{e9}\u{4e2d}\u{1F600}\u{e9}\u{4e2d}\u{1F600}\u{e9}\u{4e2d}\u{1F600}\u{e9}\u{4e2d}\u{1F600}", " ", "NaN", "-1e999", "1,5"];
-const ODD_TEXTS: [&str; 10] = [
+const ODD_TEXTS: [&str; 29] = [
   "\u{e9}\u{4e2d}\u{1F600}\u{e9}\u{4e2d}\u{1F600}\u{e9}\u{4e2d}\u{1F600}\u{e9}\u{4e2d}\u{1F600}\u{e9}\u{4e2d}\u{1F600}\u{e9}\u{4e2d}\u{1F600}\u{e9}\u{4e2d}\u{1F600}\u{e9}\u{4e2d}\u{1F600}\u{e9}\u{4e2d}\u{1F600}\u{e9}\u{4e2d}\u{1F600}\u{e9}\u{4e2d}\u{1F600}\u{e9}\u{4e2d}\u{1F600}\u{e9}\u{4e2d}\u{1F600}\u{e9}\u{4e2d}\u{1F600}\u{e9}\u{4e2d}\u{1F600}\u{e9}\u{4e2d}\u{1F600}\u{e9}\u{4e2d}\u{1F600}\u{e9}\u{4e2d}\u{1F600}\u{e9}\u{4e2d}\u{1F600}\u{e9}\u{4e2d}\u{1F600}\u{e9}\u{4e2d}\u{1F600}\u{e9}\u{4e2d}\u{1F600}\u{e9}\u{4e2d}\u{1F600}\u{e9}\u{4e2d}\u{1F600}\u{e9}\u{4e2d}\u{1F600}\u{e9}\u{4e2d}\u{1F600}\u{e9}\u{4e2d}\u{1F600}\u{e9}\u{4e2d}\u{1F600}\u{e9}\u{4e2d}\u{1F600}\u{e9}\u{4e2d}\u{1F600}\u{e9}\u{4e2d}\u{1F600}\u{e9}\u{4e2d}\u{1F600}\u{e9}\u{4e2d}\u{1F600}\u{e9}\u{4e2d}\u{1F600}",
   "\"a\u{e9}\u{4e2d}\u{1F600}\u{e9}\u{4e2d}\u{1F600}\u{e9}\u{4e2d}\u{1F600}\u{e9}\u{4e2d}\u{1F600}\u{e9}\u{4e2d}\u{1F600}\u{e9}\u{4e2d}\u{1F600}\u{e9}\u{4e2d}\u{1F600}\u{e9}\u{4e2d}\u{1F600}\u{e9}\u{4e2d}\u{1F600}\u{e9}\u{4e2d}\u{1F600}\u{e9}\u{4e2d}\u{1F600}\u{e9}\u{4e2d}\u{1F600}\u{e9}\u{4e2d}\u{1F600}\u{e9}\u{4e2d}\u{1F600}\u{e9}\u{4e2d}\u{1F600}\u{e9}\u{4e2d}\u{1F600}\u{e9}\u{4e2d}\u{1F600}\u{e9}\u{4e2d}\u{1F600}\u{e9}\u{4e2d}\u{1F600}\u{e9}\u{4e2d}\u{1F600}\u{e9}\u{4e2d}\u{1F600}\u{e9}\u{4e2d}\u{1F600}\u{e9}\u{4e2d}\u{1F600}\u{e9}\u{4e2d}\u{1F600}\u{e9}\u{4e2d}\u{1F600}\u{e9}\u{4e2d}\u{1F600}\u{e9}\u{4e2d}\u{1F600}\u{e9}\u{4e2d}\u{1F600}\u{e9}\u{4e2d}\u{1F600}\u{e9}\u{4e2d}\u{1F600}\u{e9}\u{4e2d}\u{1F600}\u{e9}\u{4e2d}\u{1F600}\u{e9}\u{4e2d}\u{1F600}\u{e9}\u{4e2d}\u{1F600}",
-  "(", "1 / 0", "x y z", "[1..", "function() 1", "null", "\"unterminated", "-"];
+  "(", "1 / 0", "x y z", "[1..", "function() 1", "null", "\"unterminated", "-",
+  // unusual unary tests and lexical edge cases
+  "not()", "< ", ",", "/* c */ 1", "// c", "\"\\u12\"", "\"\\", "1e", "123456789012345678901234567890123456789012345678901234567890.5", "@\"x\"", "if then else", "{a:}", ".5.", "\u{1D11E}", "x instance of", "",
+  // a name beginning with the part `in` where the variable of an iteration is expected
+  "for in+x in [1] return 1", "some in-a in [1] satisfies true", "every in in in satisfies in",
+];
 
 /// All single structural faults of a base text: (kind, index, variant).
 fn single_faults(cat: &Catalogue) -> Vec<(String, usize, usize)> {
@@ -1104,7 +1109,7 @@ impl Sim for C12 {
     parr(plan, "faults").iter().any(|f| edits_of(&catalogue(pstr(plan, "base")), pstr(f, "kind"), pu64(f, "index") as usize, pu64(f, "variant") as usize).is_none())
   }
   fn rule_text(&self) -> String {
-    "cases = (base model text, fault list): every single structural fault (delete / duplicate / empty / swap an element, delete / empty / swap attribute values, 11 odd values per model attribute (two of them long multi-byte texts) and 5 per diagram attribute, delete / swap text nodes, 10 odd contents per FEEL text and typeRef, retarget every href to a missing element, to its own owner and to each element requiring the owner within 3 steps, retarget item definition typeRefs to their own definition and to their referrers) at every position of every .dmn file under examples/src plus the simulator's models - all of them in the thorough tier, every reference fault plus a seeded one-in-3 stratified sample of the rest in the quick tier - then seeded pairs and storage faults (truncate, lost write, bit/burst flips, dropped/duplicated/swapped 64-byte blocks, foreign block spliced in, invalid UTF-8), then seeded cases through the directory-load and HTTP paths; distinct = distinct faulted texts (hash); non-trivial = the fault changed the text".to_string()
+    "cases = (base model text, fault list): every single structural fault (delete / duplicate / empty / swap an element, delete / empty / swap attribute values, 11 odd values per model attribute (two of them long multi-byte texts) and 5 per diagram attribute, delete / swap text nodes, 29 odd contents per FEEL text and typeRef, retarget every href to a missing element, to its own owner and to each element requiring the owner within 3 steps, retarget item definition typeRefs to their own definition and to their referrers) at every position of every .dmn file under examples/src plus the simulator's models - all of them in the thorough tier, every reference fault plus a seeded one-in-3 stratified sample of the rest in the quick tier - then seeded pairs and storage faults (truncate, lost write, bit/burst flips, dropped/duplicated/swapped 64-byte blocks, foreign block spliced in, invalid UTF-8), then seeded cases through the directory-load and HTTP paths; distinct = distinct faulted texts (hash); non-trivial = the fault changed the text".to_string()
   }
   fn assumptions(&self) -> Vec<String> {
     vec![
